@@ -148,6 +148,9 @@ class FrameItem(EFLRItem):
             index_data = index_data.astype(np.float64)
 
         diff = np.diff(index_data)
+        if np.isnan(diff).any():
+            return None, None  # NaN among the index values: neither spacing nor direction can be determined
+
         diff_unique = np.unique(diff)
 
         if len(diff_unique) == 0:
